@@ -724,6 +724,9 @@ func (view *View) Offset(ctx context.Context, scope *ReferenceScope, clause pars
 	if view.RecordLen() <= view.offset {
 		view.RecordSet = RecordSet{}
 	} else {
+		if view.sortValuesInEachRecord != nil && view.offset < len(view.sortValuesInEachRecord) {
+			view.sortValuesInEachRecord = view.sortValuesInEachRecord[view.offset:]
+		}
 		newSet := view.RecordSet[view.offset:]
 		view.RecordSet = view.RecordSet[:len(newSet)]
 		for i := range newSet {
